@@ -1,10 +1,6 @@
 """Per-property configuration of ./check. One entry per claimed property."""
 
-TB_COMMON = [
-    "Lean 4.33.0 kernel (and leanchecker on the thorough tier); axioms limited to propext, Classical.choice, Quot.sound (audited by #print axioms on every run)",
-    "the statements in lean/Proofs/Properties/<id>.lean say what properties.jsonl says",
-    "Lean compiler for the compiled model driver zmodel (correspondence runs only, not the theorems)",
-]
+from .common import TB_COMMON
 
 PROPS = {}
 
@@ -25,6 +21,11 @@ PROPS["C19"] = dict(
         "hand model of VerifyMerkleBranch (lean/Zrnt/Util/Merkle.lean) tied by correspondence with real SHA-256 on both sides",
         "Nat-level specifications in lean/Zrnt/Util/MathSpec.lean",
     ],
+    manifest=dict(
+        level_text="Lean theorems over the full UInt64 domain about functions regenerated from the Go source on every run (go2lean), plus a differential run of the same Go functions against the regenerated model and Nat-level specifications",
+        level_note="trusted: Lean kernel, go2lean translator (validated differentially), Nat specs in MathSpec.lean, hand model of VerifyMerkleBranch tied by correspondence",
+        technique="Lean 4 proof over regenerated model + Go/Lean differential correspondence",
+        design_ref="DESIGN.md 5/C19", engine="lean"),
     assumptions=["SECONDS_PER_SLOT, SLOTS_PER_EPOCH, CHURN_LIMIT_QUOTIENT, TARGET_COMMITTEE_SIZE are non-zero (documented domain)",
                  "VerifyMerkleBranch: depth <= len(branch) is the documented domain; outside it both Go and the model panic"],
 )
